@@ -830,7 +830,10 @@ impl World {
         // at this rate the sender needs longer than 10 s to earn the credit for its next frame
         // ... or its rate is so low that RTO (= 2s/X, the minimum spacing of sync frames) exceeds 32 s
         let starved = (credit < 0 && (-(credit as f64)) / rate.max(1.0) > 10.0) || rate <= 92.0;
-        (starved, format!("peer sender: rate {} B/s, credit {} bytes, rto {:?} ms, rtt {:?}", rate, credit, hc.verif_rto_ms(), hc.rtt_s()))
+        // ... or its RTO (max(4 RTT, 2s/X): the spacing of its retransmissions and sync frames) has
+        // grown to the 20 s after which the other end gives up
+        let slow_rto = hc.verif_rto_ms().map_or(false, |r| r >= 20_000);
+        (starved, format!("peer sender: rate {} B/s, credit {} bytes, rto {:?} ms, rtt {:?}{}", rate, credit, hc.verif_rto_ms(), hc.rtt_s(), if slow_rto { " [rto>=20s]" } else { "" }))
     }
 
     /// Snapshot of the other end's sender at the moment a timeout is reported for `addr`.
